@@ -2,3 +2,4 @@
 import rules_c01
 import rules_c04
 import rules_incr
+import rules_watch
